@@ -341,12 +341,14 @@ package websocket
 
 //@ pred MuInv(c) := imp(c.g_closeSent, c.writeErr != nil) && imp(c.g_wfailed, c.writeErr != nil)
 //@ pred ErrMuInv(c) := true
-//@ lock Conn.mu inv MuInv protects Conn.g_closeSent Conn.g_wfailed Conn.conn.g_wn Conn.conn.g_wire monotone Conn.writeErr
+// g_cs: transport writes issued in the current critical section of c.mu.
+//@ ghostfield Conn.g_cs int
+//@ lock Conn.mu inv MuInv protects Conn.g_closeSent Conn.g_wfailed Conn.conn.g_wn Conn.conn.g_wire monotone Conn.writeErr cslocal Conn.g_cs
 //@ lock Conn.writeErrMu inv ErrMuInv monotone Conn.writeErr
 
 //@ pred isControlT(t) := t == 8 || t == 9 || t == 10
 //@ pred isDataT(t) := t == 1 || t == 2
-//@ modset WireMods(c) := c.g_closeSent, c.g_wfailed, c.conn.g_wn, c.conn.g_wire, c.conn.g_wdl, c.writeErr
+//@ modset WireMods(c) := c.g_closeSent, c.g_wfailed, c.conn.g_wn, c.conn.g_wire, c.conn.g_wdl, c.writeErr, c.g_cs
 
 //@ func (*Conn).writeFatal
 //@ tags C09 C10
@@ -360,7 +362,9 @@ package websocket
 //@ assert at call:ReadFull#1[C02.csprng]: arg0 == rand.Reader && len(arg1) == 4
 
 //@ func (*Conn).writeBufs
-//@ tags C02 C10
+//@ tags C02 C10 C11
+//@ cover WriteTo C11.oneframe
+//@ assert at call:WriteTo#1[C11.oneframe]: arg1 == c.conn
 //@ requires len(bufs) == 2
 //@ let b0 := bufs[0]
 //@ let b1 := bufs[1]
@@ -383,6 +387,12 @@ package websocket
 //@ assert at call:SetWriteDeadline#1[C10.deadline]: arg1 == deadline
 //@ assert at call:Write#1[C09.nowrite]: held(c.mu) && !c.g_closeSent && !c.g_wfailed
 //@ assert at call:writeBufs#1[C09.nowrite]: held(c.mu) && !c.g_closeSent && !c.g_wfailed
+//@ cover Write C11.oneframe
+//@ cover writeBufs C11.oneframe
+//@ assert at call:Write#1[C11.oneframe]: c.g_cs == 0 && arg0 == c.conn && same(arg1, buf0) && len(buf1) == 0
+//@ assert at call:writeBufs#1[C11.oneframe]: c.g_cs == 0 && arg0 == c && len(arg1) == 2 && same(arg1[0], buf0) && same(arg1[1], buf1)
+//@ ghost after call:Write#1: c.g_cs := c.g_cs + 1
+//@ ghost after call:writeBufs#1: c.g_cs := c.g_cs + 1
 //@ ghost after call:SetWriteDeadline#1 when ret != nil: c.g_wfailed := true
 //@ ghost after call:Write#1 when ret1 != nil: c.g_wfailed := true
 //@ ghost after call:writeBufs#1 when ret != nil: c.g_wfailed := true
@@ -407,6 +417,10 @@ package websocket
 //@ assert at call:SetWriteDeadline#1[C09.nowrite]: held(c.mu) && !c.g_closeSent && !c.g_wfailed && c.writeErr == nil
 //@ assert at call:SetWriteDeadline#1[C10.deadline]: arg1 == deadline
 //@ assert at call:Write#1[C09.nowrite]: held(c.mu) && !c.g_closeSent && !c.g_wfailed
+//@ cover Write C11.oneframe
+//@ assert at call:Write#1[C11.oneframe]: c.g_cs == 0 && arg0 == c.conn && held(c.mu)
+//@ ghost after call:Write#1: c.g_cs := c.g_cs + 1
+//@ assert at call:NewTimer#1[C11.deadline]: arg0 == d
 //@ assert at call:Write#1[C02.ctlhdr]@bv: isControlT(messageType) && len(data) <= 125 && \
 //@     rfc_opcode(arrayOf(arg1), off(arg1)) == messageType && rfc_fin(arrayOf(arg1), off(arg1)) && \
 //@     !rfc_rsv1(arrayOf(arg1), off(arg1)) && !rfc_violates(arrayOf(arg1), off(arg1), !c.isServer, false, false) && \
@@ -1057,3 +1071,35 @@ package websocket
 //@ unchecked slice#1: that the rendered server frame is at least as long as the payload needs a model of bytes.Buffer contents; not part of C19
 //@ ensures[C19.copy] imp(r1 == nil && region(data) > 0, region(r0.data) != region(data))
 //@ assert at call:frame#1[C19.newkey]: arg1.isServer && !arg1.compress && arg0.messageType == messageType && same(arg0.data, data)
+
+// ---------------------------------------------------------------------------
+// C11: ownership of the shared structures under the documented concurrency
+// contract (one reading goroutine, one writing goroutine, any number of
+// WriteControl / Close callers).
+
+//@ owners Conn const: conn isServer subprotocol mu writePool writeBufSize newCompressionWriter newDecompressionReader
+//@ owners Conn sync: writeErrMu
+//@ owners Conn lock writeErrMu: writeErr
+//@ owners Conn writer: writeBuf writeDeadline writer isWriting enableWriteCompression compressionLevel
+//@ owners Conn reader: reader readErr br readRemaining readFinal readLength readLimit readMaskPos readMaskKey handlePong handlePing handleClose readErrCount messageReader readDecompress
+//@ owners messageWriter writer: c compress pos frameType err
+//@ owners messageReader reader: c
+//@ owners PreparedMessage const: messageType data
+//@ owners PreparedMessage sync: mu
+//@ owners PreparedMessage lock mu: frames
+//@ owners preparedFrame sync: once
+//@ owners preparedFrame once: data
+
+//@ roles reader: (*Conn).NextReader (*Conn).ReadMessage (*Conn).ReadJSON (*Conn).SetReadLimit (*Conn).SetReadDeadline (*Conn).SetPongHandler (*Conn).SetPingHandler (*Conn).SetCloseHandler (*Conn).PongHandler (*Conn).PingHandler (*Conn).CloseHandler (*messageReader).Read (*messageReader).Close
+//@ roles writer: (*Conn).NextWriter (*Conn).WriteMessage (*Conn).WriteJSON (*Conn).WritePreparedMessage (*Conn).SetWriteDeadline (*Conn).EnableWriteCompression (*Conn).SetCompressionLevel (*messageWriter).Write (*messageWriter).WriteString (*messageWriter).ReadFrom (*messageWriter).Close
+//@ roles any: (*Conn).WriteControl (*Conn).Close (*Conn).Subprotocol (*Conn).LocalAddr (*Conn).RemoteAddr (*Conn).UnderlyingConn (*Conn).NetConn
+//@ roles init: newConn (*Upgrader).Upgrade (*Dialer).DialContext NewPreparedMessage
+
+// The transport is written only by write (through writeBufs) and WriteControl
+// once the Conn exists; the handshake code writes before the Conn is shared
+// (Upgrade: the 101 response; proxy CONNECT and the client request go through
+// http.Request.Write).
+//@ onlycallers[C11.paths] (net.Conn).Write: (*Conn).write (*Conn).WriteControl (*Upgrader).Upgrade
+//@ onlycallers[C11.paths] (*net.Buffers).WriteTo: (*Conn).writeBufs
+//@ onlycallers[C11.paths] (*Conn).writeBufs: (*Conn).write
+//@ onlycallers[C11.paths] (net.Conn).SetWriteDeadline: (*Conn).write (*Conn).WriteControl (*Upgrader).Upgrade
